@@ -84,7 +84,106 @@ def grp(nodes, root, strip):
     return f"Grp.mk [{', '.join(vars_)}]\n    [{', '.join(groups)}]\n    {kvs(node['attrs'], strip)}"
 
 
+# ---------------------------------------------------------------------------------------------
+# golden field tables (from the frozen layouts)
+
+
+def tag(n):
+    k = n["k"]
+    if k == "uint":
+        return f"uint{n['n']}"
+    if k == "flag":
+        return f"flag{n['n']}"
+    if k in ("aint", "afloat", "acomplex", "pstr", "bytes", "ydms", "ydus", "tell", "seek", "computed"):
+        return k
+    if k == "factor":
+        return f"factor({n['e']})/" + tag(n["sub"])
+    if k == "meta":
+        return "meta(" + ";".join(f"{a}={v}" for a, v in n["attrs"].items()) + ")/" + tag(n["sub"])
+    if k == "enum":
+        return "enum(" + ";".join(f"{c}={nm}" for c, nm in n["table"]) + ")/" + tag(n["sub"])
+    return "?"
+
+
+def is_leaf_level(n):
+    k = n["k"]
+    if k in ("factor", "meta", "enum"):
+        return is_leaf_level(n["sub"])
+    return k not in ("struct", "array")
+
+
+def size_of(n):
+    k = n["k"]
+    if k in ("uint", "flag"):
+        return n["n"]
+    if k in ("aint", "afloat", "pstr", "bytes"):
+        return n["n"]["v"]
+    if k == "acomplex":
+        return n["n"]["v"] // 2 * 2
+    if k in ("factor", "meta", "enum", "ydms", "ydus"):
+        return size_of(n["sub"])
+    if k == "struct":
+        return sum(size_of(c) for _, c in n["fields"])
+    if k == "array":
+        return n["count"]["v"] * size_of(n["elem"])
+    return 0
+
+
+def leaf_table(n, path, off, acc):
+    k = n["k"]
+    if k == "struct":
+        for name, c in n["fields"]:
+            p = path + [name]
+            acc[:] = [e for e in acc if e[0][:len(p)] != p]
+            off = leaf_table(c, p, off, acc)
+        return off
+    if k == "array":
+        for i in range(n["count"]["v"]):
+            off = leaf_table(n["elem"], path + [f"[{i}]"], off, acc)
+        return off
+    if k == "meta" and not is_leaf_level(n["sub"]):
+        return leaf_table(n["sub"], path, off, acc)
+    w = size_of(n)
+    acc.append((path, off, w, tag(n)))
+    return off + w
+
+
+def live(path):
+    def keep(k):
+        if not (k.startswith("spare") or k.startswith("blanks")):
+            return True
+        r = k.removeprefix("spare").removeprefix("blanks")
+        return bool(r) and not r.isdigit()
+    return all(keep(k) for k in path)
+
+
+def render_layouts():
+    lay = json.load(open(os.path.join(VERIF, "spec", "layouts.json"), encoding="utf-8"))
+    leader = dict(lay["sar_leader_record"]["fields"])
+    vol = dict(lay["volume_directory_record"]["fields"])
+    recs = {
+        "recordPreamble": lay["record_preamble"], "imageFileDescriptor": lay["image_file_descriptor"],
+        "signalDataRecord": lay["signal_data_record"], "processedDataRecord": lay["processed_data_record"],
+        "leaderFileDescriptor": leader["file_descriptor"], "datasetSummaryRecord": leader["dataset_summary"],
+        "mapProjectionRecord": leader["map_projection"]["elem"], "platformPositionRecord": leader["platform_position"],
+        "radiometricDataRecord": leader["radiometric_data"], "facilityRelatedData5Record": leader["facility_related_data_5"],
+        "volumeDescriptor": vol["volume_descriptor"], "filePointerRecord": vol["file_descriptors"]["elem"], "textRecord": vol["text_record"],
+    }
+    L = ["/- Rendered from the frozen spec/layouts.json by tools/render_spec.py — the golden field tables:",
+         "   (path, offset, width, conversion tag) of every live field of every fixed-size record, and the record sizes. -/",
+         "namespace Alos2.Spec", ""]
+    for name, ir in recs.items():
+        acc = []
+        end = leaf_table(ir, [], 0, acc)
+        rows = [f"({lean_path(p)}, {o}, {w}, {lean_str(t)})" for p, o, w, t in acc if live(p)]
+        L.append(f"def {name}Fields : List (List String × Nat × Nat × String) × Nat :=\n  ([" + ",\n    ".join(rows) + f"], {end})\n")
+    L += ["end Alos2.Spec", ""]
+    with open(os.path.join(VERIF, "lean", "Alos2", "Spec", "Layouts.lean"), "w", encoding="utf-8") as f:
+        f.write("\n".join(L))
+
+
 def main():
+    render_layouts()
     prov = json.load(open(os.path.join(VERIF, "spec", "provenance.json"), encoding="utf-8"))
     L = ["/- Rendered from the frozen spec/provenance.json by tools/render_spec.py — the documented output tree:",
          "   for every output leaf, WHICH record field it is (path from the record root) and which leaf function is applied.",
